@@ -137,6 +137,34 @@ def main():
                     diag = {"client_running": nc.running, "client_writer_is_none": nc.writer is None, "client_pending": len(nc.pending_responses),
                             "client_run_exited": nc._run_exit_event.is_set(), "server_connections": len(ipc._ipc_tcp_server.connections),
                             "server_task_is_none": ipc._ipc_tcp_server.task is None}
+                    import gc, asyncio
+                    transports, tasks = [], []
+                    try:
+                        for o in gc.get_objects():
+                            if type(o).__name__ == "_SelectorSocketTransport":
+                                proto = o.get_protocol()
+                                ptask = getattr(proto, "_task", None)
+                                transports.append({"closing": o.is_closing(), "sock": str(o.get_extra_info("sockname")), "peer": str(o.get_extra_info("peername")),
+                                                   "paused": getattr(o, "_paused", None), "server_side": getattr(o, "_server", None) is not None,
+                                                   "protocol": type(proto).__name__, "handler_task": repr(ptask)[:400],
+                                                   "handler_exception": (repr(ptask.exception()) if ptask is not None and ptask.done() and not ptask.cancelled() else None),
+                                                   "proto_transport_set": getattr(proto, "_transport", None) is not None, "proto_cb_none": getattr(proto, "_client_connected_cb", 0) is None,
+                                                   "proto_writer_none": getattr(proto, "_stream_writer", None) is None,
+                                                   "loop": ("server.io" if o._loop is S[".system"]["ioloop"] else "client.io" if o._loop is C[".system"]["ioloop"] else repr(o._loop)[:80]),
+                                                   "loop_ready_len": len(o._loop._ready), "loop_thread": o._loop._thread_id, "registered_reader": (o._sock_fd in o._loop._selector.get_map()) if o._sock_fd != -1 else None,
+                                                   "reader_eof": getattr(getattr(proto, "_stream_reader", None), "_eof", None),
+                                                   "reader_buffer": len(getattr(getattr(proto, "_stream_reader", None), "_buffer", b"") or b"")})
+                        for lp in {S["ioloop"] if False else None} - {None}:
+                            pass
+                        for name, interp in (("server", S), ("client", C)):
+                            for lpname in ("ioloop", "klongloop"):
+                                lp = interp[".system"][lpname]
+                                for t in asyncio.all_tasks(lp):
+                                    tasks.append("%s.%s: %s" % (name, lpname, repr(t)[:300]))
+                    except Exception as e:
+                        tasks.append("diagnostics failed: %r" % (e,))
+                    diag["transports"] = transports
+                    diag["tasks"] = tasks
                     stacks = {}
                     names_by_id = {t.ident: t.name for t in threading.enumerate()}
                     for tid, fr in sys._current_frames().items():
